@@ -704,6 +704,13 @@ _archive_write_free(struct archive *_a)
 	    ARCHIVE_STATE_ANY | ARCHIVE_STATE_FATAL, "archive_write_free");
 	if (a->archive.state != ARCHIVE_STATE_FATAL)
 		r = archive_write_close(&a->archive);
+	else
+		/*
+		 * The archive is not finished off, but filters that are
+		 * still open hold buffers, compressor state and the
+		 * client's output stream; only closing them releases those.
+		 */
+		(void)__archive_write_filters_close(a);
 
 	/* Release format resources. */
 	if (a->format_free != NULL) {
